@@ -862,6 +862,18 @@ func emitDebModel(g *core.G, m debModel) {
 	g.Emit("law-deb", append(args, expectedRecordDump(codecTypes["DebControl"], m.Expect)...)...)
 }
 
+// lzmaSmallDict: bytes 1-4 of an .lzma stream are its dictionary size, and the decoder go-debian
+// uses (github.com/kjk/lzma) allocates that much before it reads anything - arbitrary junk under a
+// ".lzma" name makes deb.Load allocate 1-4 GiB (observed: a 100-byte archive, 1.6 GiB; sixteen of
+// them in parallel took the harness to 13 GiB and, next to other runs, to the OOM killer).  Memory
+// use is not among C15's claims, so junk given to that decoder declares a 1 MiB dictionary.
+func lzmaSmallDict(ext, junk string) string {
+	if ext != ".lzma" || len(junk) < 1 {
+		return junk
+	}
+	return junk[:1] + "\x00\x00\x10\x00" + junk[1:]
+}
+
 // C15: .deb loading on hostile archives (control/data stored or gzip, per the property's carve-out)
 func streamDebfuzz(g *core.G) {
 	r := g.R
@@ -874,7 +886,7 @@ func streamDebfuzz(g *core.G) {
 				m.CtlExt, m.DataExt = "", ""
 				ms := m.members()
 				ms[k].Name = []string{"control.tar", "data.tar"}[k-1] + ext
-				ms[k].Data = []byte(junk)
+				ms[k].Data = []byte(lzmaSmallDict(ext, junk))
 				data := buildAr(ms)
 				emitDeb(g, data)
 				g.Emit("law-debsafe", core.Hex(string(data)))
@@ -908,7 +920,7 @@ func streamDebfuzz(g *core.G) {
 				k := 1 + r.Intn(2)
 				ext := r.Pick([]string{".xz", ".gz", ".zst", ".bz2", ".lzma"})
 				ms[k].Name = []string{"control.tar", "data.tar"}[k-1] + ext
-				ms[k].Data = []byte(r.Pick([]string{"", "not compressed at all", "\xfd7zXZ\x00garbage", "\x1f\x8b\x08garbage", "\x28\xb5\x2f\xfdgarbage", "BZh9garbage"}))
+				ms[k].Data = []byte(lzmaSmallDict(ext, r.Pick([]string{"", "not compressed at all", "\xfd7zXZ\x00garbage", "\x1f\x8b\x08garbage", "\x28\xb5\x2f\xfdgarbage", "BZh9garbage"})))
 				data = buildAr(ms)
 				break
 			}
